@@ -33,10 +33,19 @@ def setProp (ps : List PropEnc) (q : PropEnc) : List PropEnc :=
   if ps.any (·.name = q.name) then ps.map (fun x => if x.name = q.name then q else x) else ps ++ [q]
 
 /-- every active object exists, with the data type its index declares -/
+def appendScaler (l : List (Nat × List Bytes)) (id : Nat) (vs : List Bytes) : List (Nat × List Bytes) :=
+  if l.any (·.1 = id) then l.map (fun x => if x.1 = id then (x.1, x.2 ++ vs) else x) else l ++ [(id, vs)]
+
 def declareObjs (c : Content) : List ActiveObj → Content
   | [] => c
   | a :: as =>
-    declareObjs (c.modify a.path fun o => { o with ty := (a.idx.map (·.ty)).orElse fun _ => o.ty }) as
+    declareObjs (c.modify a.path fun o =>
+      { o with ty := (a.idx.map (·.ty)).orElse fun _ => o.ty,
+               -- a DAQmx raw-data channel has one (possibly empty) value list per declared scaler
+               scalers := match a.idx with
+                 | some (.daq _ ty _ scalers _) =>
+                   if ty = tyDaqmxRaw then scalers.foldl (fun l s => appendScaler l s.scaleId []) o.scalers else o.scalers
+                 | _ => o.scalers }) as
 
 def applyProps (c : Content) : List ObjEnc → Content
   | [] => c
@@ -59,9 +68,6 @@ def scalerValue (e : Endian) (digital : Bool) (s : ScalerEnc) (row : Bytes) : By
     match e with
     | .little => raw
     | .big => swapAtoms (typeAtoms ty) raw
-
-def appendScaler (l : List (Nat × List Bytes)) (id : Nat) (vs : List Bytes) : List (Nat × List Bytes) :=
-  if l.any (·.1 = id) then l.map (fun x => if x.1 = id then (x.1, x.2 ++ vs) else x) else l ++ [(id, vs)]
 
 /-- add the values one chunk holds for one DAQmx object -/
 def addDaqmxObj (e : Endian) (bufs : List (List Bytes)) (c : Content) (a : ActiveObj) : Content :=
@@ -193,5 +199,53 @@ def wellFormed (e : FileEnc) : Bool :=
   match activeLists none [] e with
   | .error _ => false
   | .ok acts => wfSegs e acts
+
+end Tdms
+
+namespace Tdms
+
+/-! ## the fully explicit encoding of the same content (C02) -/
+
+def idxOfDesc : IdxDesc → IdxEnc
+  | .std ty n total => .full ty n total
+  | .daq dg ty n sc w => .daqmx dg ty n sc w
+
+/-- every segment carries its metadata, starts a new object list and restates every active object
+    in full; properties are listed where the original listed them -/
+def explicitSeg (s : SegEnc) (act : List ActiveObj) : SegEnc :=
+  { s with
+    hasMeta := true, newList := true,
+    objs := act.map fun a =>
+      { path := a.path,
+        idx := (match a.hasData, a.idx with
+                | true, some d => idxOfDesc d
+                | _, _ => .noData),
+        props := if s.hasMeta then ((s.objs.filter (·.path = a.path)).flatMap (·.props)) else [] } }
+
+def explicitSegs : List SegEnc → List (List ActiveObj) → List SegEnc
+  | s :: ss, a :: as => explicitSeg s a :: explicitSegs ss as
+  | _, _ => []
+
+def explicit (e : FileEnc) : Except Reject FileEnc :=
+  match activeLists none [] e with
+  | .error r => .error r
+  | .ok acts => .ok (explicitSegs e acts)
+
+/-! ## bytes of a forbidden encoding: the longest valid prefix in full, then metadata only -/
+
+def validPrefixLen (e : FileEnc) : Nat :=
+  ((List.range (e.length + 1)).filter fun k => match activeLists none [] (e.take k) with
+    | .ok _ => true
+    | .error _ => false).getLast?.getD 0
+
+def encodeSegMetaOnly (s : SegEnc) : Bytes :=
+  let m := segMeta s
+  encLeadIn tagData s m.length 0 ++ m
+
+def encodeForbidden (e : FileEnc) : Bytes :=
+  let k := validPrefixLen e
+  match encodeFile (e.take k) with
+  | .ok b => b ++ (e.drop k).flatMap encodeSegMetaOnly
+  | .error _ => e.flatMap encodeSegMetaOnly
 
 end Tdms
